@@ -109,6 +109,25 @@ theorem documented_classes_converted (mro : List String) (d : Bool) (c : String)
   unfold convert
   rw [if_neg (by simpa using hr), if_pos h2]
 
+/-- Whatever the bytes of a file that does not unpickle to a cache are — a prefix, a splice of
+    two writers with different options, a hole, leftovers of a third writer — the state
+    machine only sees "not complete, unpickling raises `truncErr`", and `Lawful` says that
+    exception is converted: the call recompiles, returns the compile of the current sources,
+    and leaves a `Fresh` state.  (Not covered: a torn file that unpickles *successfully* to a
+    wrong dictionary; seed C21-3 shows the in-place variant that makes this reachable.) -/
+theorem damaged_cache_is_repaired (cfg : Cfg M) (L : List Folder) (hlaw : Lawful cfg) (w : World M)
+    (c : CacheFile M) (hc : w.cache = some c) (hd : c.complete = false) (o : Opts) (now size : Nat)
+    (hm : o.norm.mtimeCheck = true) (hl : cfg.exclLibs = true → o.libs = L) :
+    (transfer cfg w o now size).2.model? = some (compileNow cfg w o.norm) ∧
+      FreshInv cfg L (transfer cfg w o now size).1 := by
+  have h0 : FreshInv cfg L w := by
+    intro c' hc' hcomp
+    rw [hc] at hc'
+    cases hc'
+    rw [hd] at hcomp
+    cases hcomp
+  exact transfer_spec o now size .done hlaw h0 hm hl
+
 section examples
 def exCfg21 : Cfg Nat :=
   { compile := fun v s _ => v + s.length, truncErr := fun n => ⟨[if n < 2 then "EOFError" else "UnpicklingError", "Exception"], false⟩,
@@ -134,42 +153,51 @@ end PymocaVerif.CacheState
 
 namespace PymocaVerif.CacheFile
 
-/-- Reader/writer: in every interleaving of two `transfer_model` calls (any schedule of
-    their load / open / write-piece / close steps, any split of the writes into pieces), a
-    call that is about to load sees the initial file, or exactly a prefix of the bytes `B`
-    the other call is writing (possibly empty, possibly all of it) — never anything else.
-    With `crash_safe`/`truncation_safe` (a prefix is repaired, a complete fresh file is a
-    correct hit) every reader therefore returns a correct model.
-    PARTIAL: both calls write the same byte string `B` (same sources, options, version —
-    the harness checks that the pickle is deterministic).  Missing: two calls with different
-    options (different bytes), more than two concurrent calls, a reader whose `pickle.load`
-    is itself interleaved with writes, and shared libraries torn by the linker. -/
-theorem reader_sees_initial_or_prefix_partial (B : Nat → Nat) (N : Nat) (valid : File → Bool)
+/-- Reader/writer, for calls that write *different* byte strings `B false`, `B true` (different
+    options, or sources edited in between) and any mix of in-place and atomic (temporary
+    file + rename) writers: in every interleaving of two `transfer_model` calls, a call that
+    is about to load sees the initial file, or exactly a prefix of what the *other* call is
+    writing (empty, partial, or all of it) — never a splice.  With `damaged_cache_is_repaired`
+    (a strict prefix is repaired) and C20 (a complete file is served only if fresh and for
+    equal options) every reader therefore returns a correct model.
+    Modelling assumptions: two calls (the property's quantifier), and a reader's
+    `pickle.load` sees one snapshot of the file. -/
+theorem reader_sees_initial_or_prefix (B : Bool → Nat → Nat) (N : Bool → Nat) (valid : File → Bool)
     (f0 : Option File) (acts : List Act) (s : Sys) (i : Bool)
-    (hrun : runActs B N valid (init f0) acts = some s) (hi : s.ph i = .start) :
-    s.file = f0 ∨ ∃ f p, s.file = some f ∧ p ≤ N ∧ IsPre f B p := by
-  have hg := good_run B N valid f0 acts _ s (good_init B N f0) hrun
+    (hrun : runActsG B N valid (init f0) acts = some s) (hi : s.ph i = .start) :
+    s.file = f0 ∨ ∃ f p, s.file = some f ∧ p ≤ N (!i) ∧ IsPre f (B (!i)) p := by
+  have hg := goodG_run B N valid f0 acts _ s (goodG_init B N f0) hrun
   have hio : (s.ph i).opened = false := by rw [hi]; rfl
   by_cases hother : (s.ph (!i)).opened = true
   · right
-    obtain ⟨l, f, _, hlo, hfile, h1, h2, h3, h4⟩ := hg.owner (!i) hother
-    have hl : l = !i := by
-      rcases bool_cases i l with h | h
-      · subst h; rw [hio] at hlo; cases hlo
-      · exact h
-    subst hl
-    simp only [Bool.not_not] at h4
-    exact ⟨f, posOf N (s.ph (!i)), hfile, by have := h4 hio; omega, h4 hio, h3⟩
+    obtain ⟨f, hfile, hpre⟩ := hg.single (!i) hother (by simpa using hio)
+    refine ⟨f, posOf (N (!i)) (s.ph (!i)), hfile, ?_, hpre⟩
+    cases hph : s.ph (!i) with
+    | start => simp [posOf]
+    | missed => simp [posOf]
+    | writing p => simp only [posOf]; exact hg.bound _ _ hph
+    | done b => cases b <;> simp [posOf]
   · left
     have hother : (s.ph (!i)).opened = false := by simpa using hother
     cases i with
-    | false => exact (hg.fresh hio hother).1
-    | true => exact (hg.fresh hother hio).1
+    | false => exact hg.fresh hio hother
+    | true => exact hg.fresh hother hio
+
+/-- Atomic writers (temporary file + `os.replace`, any bytes): at every point of every
+    schedule the cache file is the initial one or a complete cache of one of the calls — no
+    reader and no later call ever sees a partial or spliced file. -/
+theorem atomic_writers_file_always_complete (B : Bool → Nat → Nat) (N : Bool → Nat) (valid : File → Bool)
+    (f0 : Option File) (acts : List Act) (s : Sys) (hat : atomicOnly acts = true)
+    (hrun : runActsG B N valid (init f0) acts = some s) :
+    s.file = f0 ∨ ∃ i, s.file = some (File.full (B i) (N i)) :=
+  atomic_file B N valid f0 acts (init f0) s hat (Or.inl rfl) hrun
 
 /-- When both calls have returned and at least one of them wrote, the file holds exactly `B`:
     an in-progress or overlapping write leaves nothing behind that could break later loads.
-    PARTIAL: same restriction as above (one byte string `B` for both writers); with different
-    bytes the final file can be a splice, which only the thorough tier samples on the real code. -/
+    PARTIAL: in-place writers with one byte string `B` for both.  With different bytes an
+    in-place final file can be a splice; then `damaged_cache_is_repaired` applies as long as the
+    splice does not unpickle (sampled on the real code), and `atomic_writers_file_always_complete`
+    covers the atomic variant for any bytes. -/
 theorem final_file_complete_partial (B : Nat → Nat) (N : Nat) (valid : File → Bool)
     (f0 : Option File) (acts : List Act) (s : Sys) (i : Bool)
     (hrun : runActs B N valid (init f0) acts = some s)
@@ -206,6 +234,10 @@ example : (runActs exB 4 (fun f => f.isAll exB 4) (init none) exActs).map (fun s
 -- in the middle of that schedule the file is *not* a prefix (a hole of zeros): two writers
 example : (runActs exB 4 (fun f => f.isAll exB 4) (init none) (exActs.take 6)).map (fun s => s.file.map File.bytes)
     = some (some [0, 0, 12, 13]) := by decide
+-- different bytes, in place: the final file can be a splice (here 20,21 from call 1 then 12,13 from call 0)
+example : (runActsG (fun i j => if i then 20 + j else 10 + j) (fun _ => 4) (fun _ => false) (init none)
+    [.load false, .load true, .openW false, .write false 2, .openW true, .write true 4, .close true, .write false 2, .close false]).map
+      (fun s => s.file.map File.bytes) = some (some [20, 21, 12, 13]) := by decide
 -- the atomic variant: one call renames a complete temporary file into place while the other writes in place
 example : (runActs exB 4 (fun f => f.isAll exB 4) (init none)
     [.load false, .load true, .openW false, .write false 2, .replace true, .write false 2, .close false]).map
